@@ -385,6 +385,21 @@ impl Parsing {
                 _ => ctx.count("truncated_text_not_rejected"),
             }
         }
+        // a Xot whose arena has free slots: a document of 30-300 nodes was parsed (or built) and removed again, so the nodes of
+        // the next parse land in recycled slots; another document stays alive next to it
+        if stress && doc.structural_hash() % 4 == 3 {
+            let n = 10 + (doc.structural_hash() / 4 % 90) as usize;
+            let junk = format!("<j>{}</j>", "<k a=\"1\">t<l/>u</k>".repeat(n));
+            let _ = guard(|| {
+                if let Ok(keep) = xot.parse("<stays><here/>text</stays>") {
+                    let _ = keep;
+                }
+                if let Ok(d) = xot.parse(&junk) {
+                    let _ = xot.remove(d);
+                }
+            });
+            ctx.count("parsed_into_xot_with_recycled_slots");
+        }
         // the parser merges adjacent character data and CDATA whatever the Xot's consolidation switch says
         if doc.structural_hash() % 7 == 2 {
             xot.set_text_consolidation(false);
